@@ -53,3 +53,10 @@ Theorem union_example :
    keys (o_atoms (s_cur s)) = [1; 2; 3; 4; 5; 6] /\ List.length (s_others s) = 2%nat /\
    match s_others s with u :: _ => keys (o_atoms u) = [1; 2; 3; 4; 5; 6; 7; 8; 9] | [] => False end).
 Proof. split; [vm_compute; tauto|]. split; vm_compute; repeat split; reflexivity. Qed.
+
+(* ethanol and an isolated nitrogen: split into the two components, complement, augmented substructure, intersection *)
+Definition parts_history : list op := build_cco ++ [OAddAtom nitrogen None; OSplit; OMinus [1]; OAug [1] 1; OAnd [2; 3]].
+Theorem parts_example :
+  ops_ok empty_state parts_history /\ trace parts_history empty_state = repeat None 13 /\
+  map (fun o => keys (o_atoms o)) (s_others (run parts_history empty_state)) = [[2; 3]; [1; 2]; [2; 3; 4]; [4]; [1; 2; 3]].
+Proof. split; [vm_compute; tauto|]. split; vm_compute; reflexivity. Qed.
